@@ -4,12 +4,13 @@
 set -uo pipefail
 REPO="${1:-/repo}"
 HERE="$(cd "$(dirname "$0")/.." && pwd)"
-W="$HERE/.work/witness/$(echo "$REPO" | md5sum | cut -c1-10)"
+WORKDIR="${VERIF_WORK:-$HERE/.work}"
+W="$WORKDIR/witness/$(echo "$REPO" | md5sum | cut -c1-10)"
 mkdir -p "$W/src"
 sed "s|@REPO@|$REPO|" "$HERE/witness/Cargo.toml.in" > "$W/Cargo.toml"
 cp "$HERE/witness/src/lib.rs" "$W/src/lib.rs"
 cp "$REPO/Cargo.lock" "$W/Cargo.lock" 2>/dev/null || true
 cd "$W"
 # one witness build at a time: the target directory is shared between repos (disk), and two concurrent doc-test runs in it lose results
-mkdir -p "$HERE/.work/target"
-CARGO_NET_OFFLINE=true CARGO_TARGET_DIR="$HERE/.work/target/witness" flock "$HERE/.work/target/witness.lock" cargo +nightly test --doc --offline 2>&1
+mkdir -p "$WORKDIR/target"
+CARGO_NET_OFFLINE=true CARGO_TARGET_DIR="$WORKDIR/target/witness" flock "$WORKDIR/target/witness.lock" cargo +nightly test --doc --offline 2>&1
